@@ -36,3 +36,61 @@ CHECKS["C04"] = NS(
         "thorough": [("grid", 6, {"maxR": 260}), ("bytes", 3, {"n": 12000}), ("values", 3, {"n": 12000}), ("ops", 4, {"n": 15000})],
     },
 )
+
+PBT = "property-based testing (Hypothesis-generated cases + exhaustive enumeration of finite sub-domains); "
+
+CHECKS["C01"] = NS(
+    MODULE="c01_symmetric",
+    LEVEL="exploration",
+    LEVEL_TEXT=(
+        "Per-element float64 nearest-grid-point oracle over (a) the complete finite value space of float16 and bfloat16 "
+        "against a stride of (quick) or every (thorough: exhaustive value x scale square) positive finite scale, (b) "
+        "boundary-directed float32 values (every grid point and rounding midpoint +-3 ulp, beyond-range, random bit "
+        "patterns), (c) Hypothesis-drawn ranks/shapes/layouts with independent per-axis scales. Exploration; float32 and "
+        "layouts are sampled, the 16-bit square is complete in the thorough tier."
+    ),
+    LEVEL_NOTE="trusts torch's float64 arithmetic and dtype conversions for the reference; tolerance 2(|x/s|u+eta) for the single working-dtype division, 2 ulp for dequantization",
+    TECHNIQUE=PBT + "float64 reference (nearest grid point), saturation and round-trip (idempotence) oracles",
+    RULE=(
+        "square: all finite fp16/bf16 values as one tensor x scale bit patterns x {qint8,e4m3fn,e5m2} x {quantize_activation,"
+        "SymmetricQuantizer.apply}; fp32: 511 grid points/midpoints +-3ulp + beyond-range + random bit patterns per drawn scale; "
+        "layout: rank 1-4, axis None/0/-1, one independent scale per kept index over up to 8 decades, 6 stride recipes, square "
+        "shapes over-represented. Non-trivial: the case's tensor has elements beyond the grid on both sides (layout: on a side), "
+        "within rounding of a midpoint and strictly interior (layout: and is per-axis, non-contiguous or rank != 2). Distinct by "
+        "(dtype, qtype, scale bits | shape, axis, layout, fill)."
+    ),
+    ASSUMPTIONS=[
+        "float32 value space is sampled (boundary-directed), not enumerated",
+        "strides limited to the view recipes contig/permuted/step-sliced/expanded/offset",
+        "an inf produced because scale*code itself exceeds the dtype max is consistent with correct dequantization and not flagged here",
+        "idempotence asserted for fp32/fp16 only, on elements whose scale*code is finite and not subnormal (excluded elements are counted)",
+    ],
+    PLAN={
+        "quick": [("square", 8, {"scales_per_combo": 700}), ("fp32", 4, {"n": 400}), ("layout", 4, {"n": 800})],
+        "thorough": [("square", 16, {"scales_per_combo": None}), ("fp32", 8, {"n": 10000}), ("layout", 8, {"n": 15000})],
+    },
+)
+
+CHECKS["C02"] = NS(
+    MODULE="c02_affine",
+    LEVEL="exploration",
+    LEVEL_TEXT=(
+        "Hypothesis-generated weight tensors whose rows/groups are independent draws from eleven range classes (zeros, "
+        "constant, one-sided, offset, straddling, single non-zero, subnormal, near dtype max, wide dynamic range, tiny) "
+        "with per-group magnitudes over ten decades; per-element float64 half-step bound with groups recomputed by "
+        "independent index arithmetic, and code equality on re-quantization. Exploration of an unbounded input space."
+    ),
+    LEVEL_NOTE="trusts float64 reference arithmetic; tolerance step/2 + 4u*max(|lo|,|hi|) + 4u*step*2^bits + eta (derivation in DESIGN 1.5 A)",
+    TECHNIQUE=PBT + "float64 per-group error bound and round-trip (re-quantization) oracles",
+    RULE=(
+        "Hypothesis: dtype x bits x axis in {0,-1} x rank 1-4 shape (small, square, wide up to 512 per-axis elements, conv-like) x "
+        "group_size in {None} + divisors x per-group class/magnitude vectors x seed. Non-trivial: at least one group that does not "
+        "straddle zero (zeros/const/pos/neg/offset/single) and at least one straddling group in the same tensor. Distinct by (dtype, "
+        "qtype, axis, shape, group_size, class vector)."
+    ),
+    ASSUMPTIONS=[
+        "rank-1 tensors: the whole vector is one group (what quanto's reduction does and test_affine_quantize_integer_tensor relies on)",
+        "re-quantization equality asserted for fp32/fp16 on groups whose scale is positive, finite and not subnormal",
+    ],
+    PLAN={"quick": [("affine", 16, {"n": 500})], "thorough": [("affine", 16, {"n": 12000})]},
+)
